@@ -41,6 +41,8 @@ type Scenario struct {
 	// StaleCanaryService pre-creates "<svc>-canary" selecting some long-gone revision (a leftover of an earlier,
 	// interrupted rollout): legal input the controllers must re-point before routing to it.
 	StaleCanaryService bool
+	// SiblingBackend: the user's HTTPRoute rule has a second backendRef next to the stable Service (gateway)
+	SiblingBackend bool
 	// ColdStart: the workload has just been created - spec.replicas > 0, but no pod exists yet and the status
 	// still says replicas 0 when the user changes the template (CloneSet)
 	ColdStart bool
@@ -249,7 +251,7 @@ func (sc *Scenario) Build(w *World) error {
 			return err
 		}
 	}
-	if sc.Traffic == "ingress" {
+	if sc.Traffic == "ingress" || sc.Traffic == "ingress+gateway" {
 		pt := netv1.PathTypePrefix
 		ing := &netv1.Ingress{ObjectMeta: metav1.ObjectMeta{Namespace: ns, Name: AppName, Annotations: map[string]string{"kubernetes.io/ingress.class": "nginx"}},
 			Spec: netv1.IngressSpec{Rules: []netv1.IngressRule{{Host: "demo.example.com", IngressRuleValue: netv1.IngressRuleValue{HTTP: &netv1.HTTPIngressRuleValue{
@@ -258,7 +260,7 @@ func (sc *Scenario) Build(w *World) error {
 			return err
 		}
 	}
-	if sc.Traffic == "gateway" {
+	if sc.Traffic == "gateway" || sc.Traffic == "ingress+gateway" {
 		kind := gatewayv1beta1.Kind("Service")
 		group := gatewayv1beta1.Group("")
 		port := gatewayv1beta1.PortNumber(80)
@@ -271,6 +273,12 @@ func (sc *Scenario) Build(w *World) error {
 				BackendRefs: []gatewayv1beta1.HTTPBackendRef{{BackendRef: gatewayv1beta1.BackendRef{
 					BackendObjectReference: gatewayv1beta1.BackendObjectReference{Group: &group, Kind: &kind, Name: AppName, Port: &port}, Weight: &weight}}},
 			}}}}
+		if sc.SiblingBackend {
+			// the user's rule splits between the stable Service and another Service of theirs
+			w2 := int32(1)
+			rt.Spec.Rules[0].BackendRefs = append(rt.Spec.Rules[0].BackendRefs, gatewayv1beta1.HTTPBackendRef{BackendRef: gatewayv1beta1.BackendRef{
+				BackendObjectReference: gatewayv1beta1.BackendObjectReference{Group: &group, Kind: &kind, Name: "legacy", Port: &port}, Weight: &w2}})
+		}
 		if err := w.Raw.Create(ctx, rt); err != nil {
 			return err
 		}
@@ -375,6 +383,9 @@ func (sc *Scenario) Rollout() *rolloutsv1beta1.Rollout {
 		trs = []rolloutsv1beta1.TrafficRoutingRef{{Service: AppName, GracePeriodSeconds: sc.Grace, Ingress: &rolloutsv1beta1.IngressTrafficRouting{ClassType: sc.IngressClass, Name: AppName}}}
 	case "gateway":
 		trs = []rolloutsv1beta1.TrafficRoutingRef{{Service: AppName, GracePeriodSeconds: sc.Grace, Gateway: &rolloutsv1beta1.GatewayTrafficRouting{HTTPRouteName: utilpointer.String(AppName)}}}
+	case "ingress+gateway": // one reference, two providers (they run together as a composite provider)
+		trs = []rolloutsv1beta1.TrafficRoutingRef{{Service: AppName, GracePeriodSeconds: sc.Grace, Ingress: &rolloutsv1beta1.IngressTrafficRouting{ClassType: sc.IngressClass, Name: AppName},
+			Gateway: &rolloutsv1beta1.GatewayTrafficRouting{HTTPRouteName: utilpointer.String(AppName)}}}
 	case "custom":
 		trs = []rolloutsv1beta1.TrafficRoutingRef{{Service: AppName, GracePeriodSeconds: sc.Grace,
 			CustomNetworkRefs: []rolloutsv1beta1.ObjectRef{{APIVersion: "networking.istio.io/v1alpha3", Kind: "VirtualService", Name: AppName}}}}
